@@ -12,7 +12,7 @@ M1 (code->spec)  : the fault-plan catalogue is printed by TLC; `vdrive poolrun` 
                    R times with scripted mocks and seeded schedule jitter, recording mock events and the `verif`
                    hook events of core/engine; TracePoolRun.tla accepts a run only if it is a behaviour of
                    PoolRun.tla ending in "Run returned what the spec says, Wait returned, nothing still active".
-                   A hang (watchdog >= 1000x the normal run time, confirmed twice) is the observation "never returned".
+                   A hang (watchdog 10 s >= 1000x the normal run time, confirmed twice) is the observation "never returned".
 """
 import json
 import os
@@ -23,6 +23,32 @@ from concurrent.futures import ThreadPoolExecutor
 import vlib
 
 PID = "C05"
+
+MANIFEST = dict(
+    category="model_checking",
+    technique="TLA+ spec PoolRun (engine/pool/await-loop/instance state machine under a fault-plan catalogue) model-checked with TLC "
+              "(safety exhaustively, liveness under fairness, negative controls) + TLC trace validation of real engine runs recorded "
+              "through scripted mocks and verif hooks for every fault plan TLC prints",
+    design_ref="DESIGN.md §4 C05",
+    text=("PoolRun.tla is an implementation-shaped model of core/engine/engine.go: Engine.Run's pool goroutines and 1-buffered runRes "
+          "channel, instancePool.Run (warm-up, runAsync, final select, deferred cancel), startInstances (first instance synchronous, later "
+          "ones asynchronous), awaitRun (four result sources, any ready case), onErrAwaited (two-way select), "
+          "checkAllInstancesAreFinished, onWaitDone/Engine.Wait, the four nested contexts (every cancel a separate step), instance.Run incl. "
+          "recovered shot panic and gun Close. Which component fails where is a fault plan from a catalogue that is a CONSTANT of the spec "
+          "(provider before first ammo/mid-run/at the very end, aggregator at once/drop error on cancel, warm-up, gun factory call j, Bind of "
+          "instance j, schedule factory (per instance / shared), shot panic, user cancel at any step, 1 or 2 pools). TLC checks Outcome, Cause, "
+          "GunsClosed, WaitDoneOnce, no deadlock (= nothing hangs), Termination and CancelPrompt (liveness), and must find counterexamples in "
+          "the variants that model the two shipped defects and two mutants. The same catalogue, printed by TLC, drives the REAL engine with "
+          "scripted mocks and seeded schedule jitter; TracePoolRun.tla accepts a recorded run only if it is a behaviour of PoolRun.tla that "
+          "ends with the observed Run result, Wait returned, no mock Run/Shoot active and no goroutine left. This is the right level: the "
+          "property quantifies over fault positions and over the orders in which the await loop sees its results, which is what a model "
+          "checker enumerates and what hand-ordered unit tests cannot."),
+    note=("Bounds: <= 2 instances, <= 2 tokens, <= 3 ammo, one fault per pool + one cancel, <= 2 pools; quick tier explores the no-cancel "
+          "plans exhaustively, thorough adds cancel-at-any-step plans and two pools; liveness on representative plan subsets. Real-run "
+          "termination is observed with a watchdog (10 s, confirmed twice). Not decided: a user cancel racing with the very end of a run "
+          "may still hide a late component error (stated exemption cancelAtRet); providers that never honour cancel. Trusted: mocks/recorder, "
+          "hook placement (each cancelling step logged before cancel()), TLC."),
+)
 
 NEGATIVE = [  # (cfg, expected kind, expected name)
     ("PoolRun_neg_nowaitdone.cfg", "deadlock", ""),            # shipped: runAsync failure without onWaitDone => Wait hangs
@@ -191,7 +217,7 @@ def run(tier, v):
     vlib.write_ndjson(pf, drive)
     out = os.path.join(d, "runs.ndjson")
     args = ["poolrun", "-plans", pf, "-out", out]
-    args += ["-runs", "30", "-runs2", "20", "-sweep", "2"] if thorough else ["-runs", "5", "-runs2", "1"]
+    args += ["-runs", "30", "-runs2", "10", "-sweep", "2"] if thorough else ["-runs", "5", "-runs2", "1"]
     p = vlib.run_driver(b, args, timeout=3000)
     stats = json.loads(p.stdout.strip().splitlines()[-1])
     rows = vlib.read_ndjson(out)
@@ -214,7 +240,7 @@ def run(tier, v):
                 samples.append(cur)
         elif cur is not None:
             e = compact(r_)
-            cur["events"].append([e.pop("ev")] + [e[k] for k in sorted(e)])
+            cur["events"].append(" ".join([e.pop("ev")] + ["%s=%s" % (k, e[k]) for k in sorted(e)]))
     outcomes = {}
     for r_ in rows:
         if r_["ev"] == "RunReturn":
@@ -235,7 +261,7 @@ def run(tier, v):
         "design bounds: <= 2 instances, <= 2 schedule tokens, <= 3 ammo, one fault per pool + one user cancel, 1 or 2 pools; "
         "quick tier explores the no-cancel plans exhaustively, the thorough tier every plan incl. cancel at every step and 2 pools",
         "liveness (Termination, CancelPromptLive) is model-checked on the design under weak fairness of every goroutine; on real runs "
-        "it is observed with a watchdog (3 s, confirmed twice; a normal run takes milliseconds)",
+        "it is observed with a watchdog (10 s, confirmed twice; a normal run takes milliseconds)",
         "Outcome under a user cancel racing with the very end of the run: Run may return nil although a late component error was "
         "suppressed after the cancel (the spec states this exemption explicitly: cancelAtRet)",
         "trusted: the scripted mocks and recorder (harness/cmd/vdrive/poolrun.go), the placement of the verif hooks in core/engine "
